@@ -26,12 +26,29 @@ def is_ip(v):
         return False
 
 
-def make_req(idents, ca=None, account_kt=None, script=None, tag=None, leading_zero=None):
-    """idents: list of (value, challenge)"""
+def make_req(idents, ca=None, account_kt=None, script=None, tag=None, leading_zero=None, accounts=1):
+    """idents: list of (value, challenge); accounts > 1: one certificate per identifier, each under its own account, in one daemon
+    (the proof of each authorization comes from the key of *its* account)."""
     ids = []
     for v, c in idents:
         ids.append({("ip" if is_ip(v) else "dns"): v, "challenge": c})
     doc = cfg.base_doc(identifiers=ids, account_extra={"key_type": account_kt} if account_kt else None)
+    if accounts > 1:
+        import copy
+        cert0 = doc["certificate"][0]
+        doc["certificate"] = []
+        acc0 = doc["account"][0]
+        doc["account"] = []
+        for i, one in enumerate(ids):
+            a = copy.deepcopy(acc0)
+            a["name"] = "acc%d" % (i % accounts)
+            a["contacts"] = [{"mailto": "acc%d@example.org" % (i % accounts)}]
+            if a["name"] not in [x["name"] for x in doc["account"]]:
+                doc["account"].append(a)
+            c = copy.deepcopy(cert0)
+            c["identifiers"] = [one]
+            c["account"] = a["name"]
+            doc["certificate"].append(c)
     req = cfg.scenario(doc, cas=[ca or {}], script=script or [])
     if leading_zero:
         # an account key whose public coordinate has a leading zero byte (the thumbprint needs fixed-width coordinates)
@@ -195,7 +212,7 @@ def run(ctx):
     res.rule = ("E1 with the CA's legitimate-answer alphabet: all ordered identifier lists of size 1..2 (quick) / 1..3 (thorough) from 5 identifiers "
                 "(name, its wildcard, second name, IPv4, IPv6) x every challenge assignment; on two base sets: every authorization order, every ordered "
                 "non-empty subset of offered challenge types, every initial authorization status per identifier, 5 token shapes, 7 account key types, "
-                "challenge hook ending with exit 0/1/255 or killed by signal 9/15. Oracle: hook type per authorization, proof values recomputed from token and the JWK on record, challenge POST after hooks.")
+                "several accounts in one daemon; challenge hook ending with exit 0/1/255 or killed by signal 9/15. Oracle: hook type per authorization, proof values recomputed from token and the JWK on record, challenge POST after hooks.")
     reqs = []
     maxn = 2 if ctx.quick else 3
     for n in range(1, maxn + 1):
@@ -224,6 +241,11 @@ def run(ctx):
         for nth in range(len(S)):
             for ans in ("exit:1", "exit:255", "signal:9", "signal:15"):  # "succeeded" = exit code 0, not "no non-zero code"
                 reqs.append(make_req(S, script=[{"kind": "hook", "tag_prefix": "chal-", "nth_hook": nth, "answer": ans}], tag="hook-exit"))
+    # several accounts in one daemon process: each certificate's proofs come from its own account's key (2 and 3 accounts, 7 key types)
+    for n in (2, 3):
+        reqs.append(make_req(S2[:n], accounts=n, tag="accounts"))
+    for kt in KEY_TYPES:
+        reqs.append(make_req([("a.example", "http-01"), ("b.example", "dns-01"), ("c.example", "tls-alpn-01")], accounts=2, account_kt=kt, tag="accounts"))
     # hook-exit scripts need the index of the nth challenge hook: resolve with a dry run
     dry = {}
     final = []
